@@ -218,8 +218,8 @@ def plan(prop, tier):
         p["lifecycle"] = True
     if prop not in ("C14", "C17", "C20"):
         p["drive"] = 40 if tier == "quick" else 600
-    if prop in ("C01", "C03", "C04", "C07", "C09", "C11"):
-        p["events18"] = 40 if tier == "quick" else 1200
+    if prop in ("C01", "C03", "C04", "C07", "C09", "C11", "C13"):
+        p["events18"] = 50 if tier == "quick" else 1500
     if prop in ("C02", "C07", "C08", "C10", "C12", "C18"):
         p["abci"] = 60 if tier == "quick" else 600
     if tier == "thorough":
